@@ -646,7 +646,7 @@ func main() {
 	r.Finish(ev.Coverage{
 		"evaluations":              atomic.LoadInt64(&evaluations),
 		"distinct_nontrivial":      len(nontrivialSet),
-		"rule":                     "every program of the generator (one slice value - shared sub-slice, materialized slice, reused result - consumed directly and through shuffles into 1, 2 and 3 shards in one invocation, both orders; a cached branch joined with an uncached twin branch of the same operator sequence, every subset of shards pre-cached; operator chains to depth 3 over 16 operators x 1-3 source shards; shared sub-slice shapes; trees of nested shuffles; pragmas at every position; Cache/CachePartial with every subset of shards pre-cached, with and without complementing the cache state after the driver compiled; Result arguments pipelined/shuffled/nested/multiple), each with and without machine combiners; one evaluation = one compiled graph compared with the driver's first compilation (views A2,B,A3,C,D,E) or one invariant pass; distinct_nontrivial = distinct canonical graphs that have at least one non-root task (i.e. at least one stage boundary)",
+		"rule":                     "every program of the generator (one slice value - shared sub-slice, shared sub-slice behind 40 pipelined operators (long task names), materialized slice, reused result - consumed directly and through shuffles into 1, 2 and 3 shards in one invocation, both orders; a cached branch joined with an uncached twin branch of the same operator sequence, every subset of shards pre-cached; operator chains to depth 3 over 16 operators x 1-3 source shards; shared sub-slice shapes; trees of nested shuffles; pragmas at every position; Cache/CachePartial with every subset of shards pre-cached, with and without complementing the cache state after the driver compiled; Result arguments pipelined/shuffled/nested/multiple), each with and without machine combiners; one evaluation = one compiled graph compared with the driver's first compilation (views A2,B,A3,C,D,E) or one invariant pass; distinct_nontrivial = distinct canonical graphs that have at least one non-root task (i.e. at least one stage boundary)",
 		"cases":                    len(cases),
 		"cases_completed":          done,
 		"invocations_compiled_A":   atomic.LoadInt64(&nCompiled),
